@@ -353,6 +353,7 @@ func ruleR2(c *Ctx) {
 		{"ParseCallIDVal", "ciFIN", "", nil},
 		{"ParseUIntVal", "clFIN", "", nil},
 		{"ParseTokenParam", "paramFIN", "paramERR", []string{"paramInitNxtVal"}},
+		{"ParseHdrLine", "hFIN", "", nil},
 	} {
 		r := fsmOf(c, s.fn)
 		if r == nil || r.head == nil || r.capped {
@@ -694,6 +695,47 @@ func ruleR3b(c *Ctx) {
 				continue // not a dispatcher
 			}
 			nd++
+			// every typed parser is handed the object its getter returned, and only when that object exists: the
+			// call is dominated by the non-nil edge of a test of the getter's result (a header whose value object
+			// is absent falls back to the generic scanner; a nil object is never dereferenced)
+			ng := 0
+			for _, b := range cl.Blocks {
+				for _, ins := range b.Instrs {
+					call, ok := ins.(*ssa.Call)
+					if !ok || call.Call.StaticCallee() == nil || bufParam(call.Call.StaticCallee()) == nil || errResultIndex(call.Call.StaticCallee()) < 0 {
+						continue
+					}
+					for _, a := range call.Call.Args {
+						g, ok := a.(*ssa.Call)
+						if !ok || !g.Call.IsInvoke() {
+							continue
+						}
+						ng++
+						guarded := false
+						for cur := b; cur != nil; cur = cur.Idom() {
+							d := cur.Idom()
+							if d == nil || len(cur.Preds) != 1 || cur.Preds[0] != d {
+								continue
+							}
+							iff, ok := d.Instrs[len(d.Instrs)-1].(*ssa.If)
+							if !ok {
+								continue
+							}
+							bo, ok := iff.Cond.(*ssa.BinOp)
+							if !ok || bo.X != ssa.Value(g) {
+								continue
+							}
+							if kc, ok := bo.Y.(*ssa.Const); ok && kc.Value == nil {
+								if (bo.Op == token.NEQ && d.Succs[0] == cur) || (bo.Op == token.EQL && d.Succs[1] == cur) {
+									guarded = true
+								}
+							}
+						}
+						c.check(guarded, "R3b", fmt.Sprintf("%s:typed-call-guard:%s", ssaKey(cl), call.Call.StaticCallee().Name()+"<-"+g.Call.Method.Name()), call.Pos(), "the typed parser is called only on the non-nil edge of a test of its getter's result")
+					}
+				}
+			}
+			c.check(ng >= 6, "R3b", ssaKey(cl)+":typed-calls", cl.Pos(), fmt.Sprintf("%d typed parser calls on getter results in the dispatcher (frozen minimum 6)", ng))
 			cnt := 0
 			for _, b := range cl.Blocks {
 				ret, ok := b.Instrs[len(b.Instrs)-1].(*ssa.Return)
